@@ -162,6 +162,14 @@ theorem ReadsAs.isNone {s : SecBuf} {c : Bytes} (h : ReadsAs s c) (hn : (secData
   | some a => rw [hs] at hn; simp at hn
 
 
+/-! ### the generated `ELF_ST_*` uses are the gABI macros -/
+theorem st_info_gen (b t : BitVec 8) : sym_st_info b t = Spec.stInfo b t := bits_st_info b t
+theorem st_info_str_gen (b t : BitVec 8) : sym_st_info_str b t = Spec.stInfo b t := bits_st_info b t
+theorem st_bind_gen32 (i : BitVec 8) : sym32_get_bind i = Spec.stBind i := bits_st_bind i
+theorem st_bind_gen64 (i : BitVec 8) : sym64_get_bind i = Spec.stBind i := bits_st_bind i
+theorem st_type_gen32 (i : BitVec 8) : sym32_get_type i = Spec.stType i := bits_st_type i
+theorem st_type_gen64 (i : BitVec 8) : sym64_get_type i = Spec.stType i := bits_st_type i
+
 /-! ### the model's readers, as functions of the section contents -/
 namespace SymTab
 
